@@ -126,7 +126,7 @@ package fstxn
 //@ spec (*FsTxn).OwnInum(op, inum)
 //@   props C14
 //@   requires opInv(op)
-//@   assumes [table] result <==> held[inum]
+//@   ensures [table] result <==> held[inum]
 
 // C08-H1/H5: the only ways from a number or a handle to an inode.
 //@ spec (*FsTxn).GetInodeInum(op, inum)
